@@ -20,6 +20,14 @@ func optStr(name string) *rt.J {
 
 func H_C06_Table() {
 	bf, sv, xv := optStr("bomFormat"), optStr("specVersion"), optStr("spdxVersion")
+	// a version written as a JSON number is not a declaration (the fields are strings)
+	numeric := rt.NondetChoice("numericversion", 3)
+	switch numeric {
+	case 1:
+		sv = &rt.J{Kind: 2, Lit: "1.5"}
+	case 2:
+		xv = &rt.J{Kind: 2, N: 2}
+	}
 	doc := jObj(jm{"bomFormat", bf}, jm{"specVersion", sv}, jm{"spdxVersion", xv}, jm{"name", jStr(rt.NondetString("other"))})
 	s := rt.NewJSONStream(doc)
 	f, err := (&formats.Sniffer{}).SniffReader(s)
@@ -29,8 +37,15 @@ func H_C06_Table() {
 	cdxWant := rt.IteStr(jS(sv) == "1.3", string(formats.CDX13JSON), rt.IteStr(jS(sv) == "1.4", string(formats.CDX14JSON), rt.IteStr(jS(sv) == "1.5", string(formats.CDX15JSON), "")))
 	spdxWant := rt.IteStr(jS(xv) == "SPDX-2.3", string(formats.SPDX23JSON), rt.IteStr(jS(xv) == "SPDX-2.2", string(formats.SPDX22JSON), ""))
 	want = formats.Format(rt.IteStr(isCDX, cdxWant, spdxWant))
-	rt.Assert(f == want, "C06.onlyifdeclared")
-	rt.Assert(rt.Iff(err == nil, want != ""), "C06.errorotherwise")
+	if numeric == 0 {
+		rt.Assert(f == want, "C06.onlyifdeclared")
+		rt.Assert(rt.Iff(err == nil, want != ""), "C06.errorotherwise")
+	} else {
+		// a member of the wrong JSON type makes the declaration unreadable: an error is acceptable, a format is
+		// acceptable only if it is the declared one
+		rt.Assert(rt.Implies(f != "", f == want), "C06.onlyifdeclared")
+		rt.Assert(rt.Iff(err == nil, f != ""), "C06.errorotherwise")
+	}
 	if err == nil {
 		ff := f
 		rt.Assert(rt.And(ff.Encoding() == "json", rt.Implies(isCDX, rt.And(ff.Type() == "cyclonedx", ff.Version() == jS(sv))),
@@ -104,3 +119,4 @@ func H_C06_LinesTwice() {
 	rt.Assert(rt.Iff(err == nil, f != ""), "C06.lines.formatorerror")
 	rt.Assert(rt.Implies(f != "", rt.StrContains(line, "SPDXVersion:")), "C06.lines.onlyifdeclared")
 }
+
